@@ -534,7 +534,9 @@ class DimensionValue(Value):
     Covers DIMENSION, PERCENTAGE or NUMBER values.
     """
 
-    __reUnNumDim = re.compile(r'^([+-]?)(\d*\.\d+|\d+)(.*)$', re.I | re.U | re.X)
+    __reUnNumDim = re.compile(
+        r'^([+-]?)([0-9]*\.[0-9]+|[0-9]+)(.*)$', re.I | re.U | re.X
+    )
     _dimension = None
     _sign = None
 
